@@ -90,10 +90,10 @@ variable {K V : Type} [DecidableEq K]
 /-- `Default::default()` -/
 def empty : GMap K V := { bc := [], groups := [] }
 
-/-- `GroupingContainer::get` (groupingmap.rs:324) -/
+/-- `GroupingContainer::get` (groupingmap.rs:298) -/
 def get (m : GMap K V) (k : K) : Option V := alookup m.bc k
 
-/-- `GroupingContainer::insert` (groupingmap.rs:287-320): the purge loop for `Global`, then the
+/-- `GroupingContainer::insert` (groupingmap.rs:258-295): the purge loop for `Global`, then the
 four cases of `match (self.backing_container.get_mut(&key), group)`. -/
 def insert (m : GMap K V) (k : K) (v : V) : Scope → GMap K V × Bool
   | .glob =>
@@ -115,7 +115,7 @@ def insert (m : GMap K V) (k : K) (v : V) : Scope → GMap K V × Bool
         | some _ => g
       ({ bc := ainsert k v m.bc, groups := g' :: gs }, true)
 
-/-- `begin_group` (groupingmap.rs:328) -/
+/-- `begin_group` (groupingmap.rs:303) -/
 def beginGroup (m : GMap K V) : GMap K V := { m with groups := [] :: m.groups }
 
 /-- The loop of `end_group` over the popped log, in list order. -/
@@ -124,7 +124,7 @@ def applyLog : AList K (Action V) → AList K V → AList K V
   | (k, .delete) :: t, bc => applyLog t (aerase k bc)
   | (k, .revert v) :: t, bc => applyLog t (ainsert k v bc)
 
-/-- `end_group` (groupingmap.rs:335-357); `none` = `Err(NoGroupToEndError)`. -/
+/-- `end_group` (groupingmap.rs:311-336); `none` = `Err(NoGroupToEndError)`. -/
 def endGroup (m : GMap K V) : Option (GMap K V) :=
   match m.groups with
   | [] => none
@@ -145,7 +145,7 @@ def run (m : GMap K V) : List (Op K V) → GMap K V × List (Out V)
     let rs := run r.1 ops
     (rs.1, r.2 :: rs.2)
 
-/-! ### `iter_all` (groupingmap.rs:418-480) -/
+/-! ### `iter_all` (groupingmap.rs:506-568) -/
 
 /-- Inner loop of `IterAll::new` over one group log: `ktv` is `key_to_val`; returns the
 values pushed onto `non_global_items` for this group, in push order. The two `unwrap`s are
@@ -200,7 +200,7 @@ def iterAll (m : GMap K V) : Res (List (Item K V)) :=
   | .panic => .panic
   | .fuel => .fuel
 
-/-- One step of `FromIterator<Item<(K, V)>>` (groupingmap.rs:482-498). -/
+/-- One step of `FromIterator<Item<(K, V)>>` (groupingmap.rs:569-585). -/
 def feed (m : GMap K V) : Item K V → GMap K V
   | .beginGroup => m.beginGroup
   | .value k v => (m.insert k v .loc).1
@@ -266,7 +266,7 @@ def GMap.abs (m : GMap K V) : Snap K V :=
 
 end Abs
 
-/-! ## The `Vec<Option<V>>` backing container (`GroupingVec`), groupingmap.rs:189-252 -/
+/-! ## The `Vec<Option<V>>` backing container (`GroupingVec`), groupingmap.rs:144-204 -/
 
 namespace VecBacking
 variable {V : Type}
